@@ -646,7 +646,7 @@ Definition end_staking_period (p : params) (s : state) : res state :=
 
 (* StateDB.IntermediateRoot(true): validators with no token and no stake are
    deleted; their distributable rewards disappear with them *)
-Definition v_invalid (v : validator) : bool := (u64 (v_token v) <=? 0) && (u64 (v_stake v) <=? 0).
+Definition v_invalid (v : validator) : bool := (v_token v <=? 0) && (v_stake v <=? 0).   (* Validator.IsInvalid: Sign() <= 0 (0cdbb3b) *)
 Fixpoint delete_invalid (s : state) (l : list validator) : state * list validator :=
   match l with
   | [] => (s, [])
